@@ -173,33 +173,110 @@ def m_residual(I, st, info, args, depth):
     return ret(st, err(Top("residual")))
 
 
-@model(r"^core::option::Option::<T>::(unwrap_or_default|unwrap|expect|map|filter|ok_or_else|ok_or|is_some|is_none|unwrap_or|take|as_ref|copied|cloned)$")
+def bool_forks(I, st, val, what="predicate"):
+    """[(state, bool)] for a BoolV / SymBool / unknown truth value"""
+    val = I.resolve(st, val)
+    if isinstance(val, BoolV):
+        return [(st, val.b)]
+    if isinstance(val, SymBool):
+        out = []
+        s2 = st.clone()
+        if I.assume(s2, val, True):
+            out.append((s2, True))
+        if I.assume(st, val, False):
+            out.append((st, False))
+        return out
+    s2 = st.clone()
+    s2.notes.append("undecided " + what)
+    st.notes.append("undecided " + what)
+    return [(s2, True), (st, False)]
+
+
+def _calls(I, st, f, av, depth, wrap):
+    """call the closure / fn value f on av; `wrap` turns its return value into the combinator's result"""
+    out = []
+    for s3, kind, val in I.call_value(st, f, av, depth):
+        out.append((s3, kind, wrap(s3, val) if kind == "return" else val))
+    return out
+
+
+def _pred(I, st, f, av, depth, then):
+    """call predicate f on av, fork on its truth value; then(state, bool) -> list of continuations"""
+    out = []
+    for s3, kind, val in I.call_value(st, f, av, depth):
+        if kind != "return":
+            out.append((s3, kind, val))
+            continue
+        for s4, t in bool_forks(I, s3, val):
+            out += then(s4, t)
+    return out
+
+
+OPTION_OPS = ("unwrap_or_default|unwrap_or_else|unwrap_or|unwrap|expect|map_or_else|map_or|map|filter|ok_or_else|ok_or|is_some_and|is_none_or|is_some|is_none|take|replace|as_ref|as_mut|as_deref|as_deref_mut|"
+              "copied|cloned|and_then|and|or_else|or|xor|zip|flatten|inspect|get_or_insert_with|get_or_insert|insert|unzip|transpose")
+
+
+@model(r"^core::option::Option::<T>::(%s)$|^core::option::Option::<&T>::(copied|cloned)$|^core::option::Option::<core::option::Option<T>>::flatten$|^core::option::Option::<core::result::Result<T, E>>::transpose$" % OPTION_OPS)
 def m_option(I, st, info, args, depth):
     op = info["tdef"].split("::")[-1]
+    O = "core::option::Option"
     out = []
-    if op == "take":
+    if op in ("take", "replace", "insert", "get_or_insert", "get_or_insert_with"):
         ptr = I.resolve(st, args[0])
         cur = I.load(st, ptr) if isinstance(ptr, Ptr) else ptr
         res = []
-        for s2, v in as_enum(I, st, cur, "core::option::Option"):
-            if isinstance(ptr, Ptr):
-                I.store_to(s2, ptr, none())
-            s2.events.append(("Option::take", repr(ptr)))
-            res.append((s2, "return", v))
+        for s2, v in as_enum(I, st, cur, O):
+            if op == "take":
+                if isinstance(ptr, Ptr):
+                    I.store_to(s2, ptr, none())
+                s2.events.append(("Option::take", repr(ptr)))
+                res.append((s2, "return", v))
+            elif op == "replace":
+                if isinstance(ptr, Ptr):
+                    I.store_to(s2, ptr, some(args[1]))
+                res.append((s2, "return", v))
+            elif op == "insert":
+                if isinstance(ptr, Ptr):
+                    I.store_to(s2, ptr, some(args[1]))
+                res.append((s2, "return", Ptr(ptr.cell, ptr.path + ("0",)) if isinstance(ptr, Ptr) else args[1]))
+            elif op == "get_or_insert":
+                if v.variant != "Some" and isinstance(ptr, Ptr):
+                    I.store_to(s2, ptr, some(args[1]))
+                res.append((s2, "return", Ptr(ptr.cell, ptr.path + ("0",)) if isinstance(ptr, Ptr) else (v.fields.get("0") if v.variant == "Some" else args[1])))
+            else:
+                if v.variant == "Some":
+                    res.append((s2, "return", Ptr(ptr.cell, ptr.path + ("0",)) if isinstance(ptr, Ptr) else v.fields.get("0")))
+                else:
+                    for s3, kind, val in I.call_value(s2, args[1], [], depth):
+                        if kind == "return" and isinstance(ptr, Ptr):
+                            I.store_to(s3, ptr, some(val))
+                            res.append((s3, "return", Ptr(ptr.cell, ptr.path + ("0",))))
+                        else:
+                            res.append((s3, kind, val))
         return res
-    for s2, v in as_enum(I, st, args[0], "core::option::Option"):
+    for s2, v in as_enum(I, st, args[0], O):
         is_some = v.variant == "Some"
         inner = v.fields.get("0")
-        if op in ("as_ref", "copied", "cloned"):
+        if op in ("as_ref", "as_mut", "as_deref", "as_deref_mut", "copied", "cloned"):
             out.append((s2, "return", v))
         elif op == "is_some":
             out.append((s2, "return", BoolV(is_some)))
         elif op == "is_none":
             out.append((s2, "return", BoolV(not is_some)))
+        elif op in ("is_some_and", "is_none_or"):
+            if is_some:
+                out += _calls(I, s2, args[1], [inner], depth, lambda s3, val: val)
+            else:
+                out.append((s2, "return", BoolV(op == "is_none_or")))
         elif op == "unwrap_or_default":
             out.append((s2, "return", inner if is_some else default_of(info["gargs"][0] if info["gargs"] else "")))
         elif op == "unwrap_or":
             out.append((s2, "return", inner if is_some else args[1]))
+        elif op == "unwrap_or_else":
+            if is_some:
+                out.append((s2, "return", inner))
+            else:
+                out += _calls(I, s2, args[1], [], depth, lambda s3, val: val)
         elif op in ("unwrap", "expect"):
             for s3, okk in site(I, s2, info, "unwrap", True if is_some else False, "Option is Some"):
                 if okk:
@@ -208,30 +285,65 @@ def m_option(I, st, info, args, depth):
                     out.append((s3, "panic", ("unwrap", info["fn"], info["ln"])))
         elif op == "map":
             if is_some:
-                for s3, kind, val in I.call_value(s2, args[1], [Struct("(tuple)", None, {"0": inner})] if False else [inner], depth):
-                    out.append((s3, kind, some(val) if kind == "return" else val))
+                out += _calls(I, s2, args[1], [inner], depth, lambda s3, val: some(val))
             else:
                 out.append((s2, "return", none()))
+        elif op == "inspect":
+            if is_some:
+                c = s2.new_cell(inner)
+                out += _calls(I, s2, args[1], [Ptr(c, ())], depth, lambda s3, val: v)
+            else:
+                out.append((s2, "return", v))
+        elif op == "map_or":
+            if is_some:
+                out += _calls(I, s2, args[2], [inner], depth, lambda s3, val: val)
+            else:
+                out.append((s2, "return", args[1]))
+        elif op == "map_or_else":
+            if is_some:
+                out += _calls(I, s2, args[2], [inner], depth, lambda s3, val: val)
+            else:
+                out += _calls(I, s2, args[1], [], depth, lambda s3, val: val)
+        elif op == "and_then":
+            if is_some:
+                out += _calls(I, s2, args[1], [inner], depth, lambda s3, val: val)
+            else:
+                out.append((s2, "return", none()))
+        elif op == "and":
+            out.append((s2, "return", args[1] if is_some else none()))
+        elif op == "or":
+            out.append((s2, "return", v if is_some else args[1]))
+        elif op == "or_else":
+            if is_some:
+                out.append((s2, "return", v))
+            else:
+                out += _calls(I, s2, args[1], [], depth, lambda s3, val: val)
+        elif op == "xor":
+            for s3, w in as_enum(I, s2, args[1], O):
+                ws = w.variant == "Some"
+                out.append((s3, "return", v if (is_some and not ws) else (w if (ws and not is_some) else none())))
+        elif op == "zip":
+            if not is_some:
+                out.append((s2, "return", none()))
+            else:
+                for s3, w in as_enum(I, s2, args[1], O):
+                    out.append((s3, "return", some(Struct("(tuple)", None, {"0": inner, "1": w.fields.get("0")})) if w.variant == "Some" else none()))
+        elif op == "flatten":
+            if not is_some:
+                out.append((s2, "return", none()))
+            else:
+                for s3, w in as_enum(I, s2, inner, O):
+                    out.append((s3, "return", w))
+        elif op == "transpose":
+            if not is_some:
+                out.append((s2, "return", ok(none())))
+            else:
+                for s3, w in as_enum(I, s2, inner, "core::result::Result"):
+                    out.append((s3, "return", ok(some(w.fields.get("0"))) if w.variant == "Ok" else w))
         elif op == "filter":
             if is_some:
                 c = s2.new_cell(inner)
-                for s3, kind, val in I.call_value(s2, args[1], [Ptr(c, ())], depth):
-                    if kind != "return":
-                        out.append((s3, kind, val))
-                        continue
-                    val = I.resolve(s3, val)
-                    if isinstance(val, BoolV):
-                        out.append((s3, "return", v if val.b else none()))
-                    elif isinstance(val, SymBool):
-                        s4 = s3.clone()
-                        if I.assume(s4, val, True):
-                            out.append((s4, "return", v))
-                        if I.assume(s3, val, False):
-                            out.append((s3, "return", none()))
-                    else:
-                        s3.notes.append("filter predicate undecided")
-                        out.append((s3.clone(), "return", v))
-                        out.append((s3, "return", none()))
+                out += _pred(I, s2, args[1], [Ptr(c, ())], depth, lambda s4, t: [(s4, "return", v if t else none())])
             else:
                 out.append((s2, "return", none()))
         elif op in ("ok_or_else", "ok_or"):
@@ -240,8 +352,24 @@ def m_option(I, st, info, args, depth):
             elif op == "ok_or":
                 out.append((s2, "return", err(args[1])))
             else:
-                for s3, kind, val in I.call_value(s2, args[1], [], depth):
-                    out.append((s3, kind, err(val) if kind == "return" else val))
+                out += _calls(I, s2, args[1], [], depth, lambda s3, val: err(val))
+        else:
+            s2.unmodelled.append("Option::" + op)
+            out.append((s2, "return", Top("Option::" + op)))
+    return out
+
+
+@model(r"^core::bool::<impl bool>::(then_some|then)$")
+def m_bool_then(I, st, info, args, depth):
+    op = info["tdef"].split("::")[-1]
+    out = []
+    for s2, t in bool_forks(I, st, args[0], "bool receiver"):
+        if not t:
+            out.append((s2, "return", none()))
+        elif op == "then_some":
+            out.append((s2, "return", some(args[1])))
+        else:
+            out += _calls(I, s2, args[1], [], depth, lambda s3, val: some(val))
     return out
 
 
@@ -254,21 +382,46 @@ def default_of(ty):
     return Sym("default::<%s>" % M.short(ty))
 
 
-@model(r"^core::result::Result::<T, E>::(map_err|unwrap|expect|is_ok|is_err|ok|unwrap_or_default|map|unwrap_or)$")
+RESULT_OPS = ("map_err|unwrap_or_default|unwrap_or_else|unwrap_or|unwrap_err|expect_err|unwrap|expect|is_ok_and|is_err_and|is_ok|is_err|ok|err|map_or_else|map_or|map|and_then|and|or_else|or|as_ref|as_mut|as_deref|"
+              "copied|cloned|inspect_err|inspect|flatten|transpose")
+
+
+@model(r"^core::result::Result::<T, E>::(%s)$|^core::result::Result::<&T, E>::(copied|cloned)$" % RESULT_OPS)
 def m_result(I, st, info, args, depth):
     op = info["tdef"].split("::")[-1]
+    R = "core::result::Result"
     out = []
-    for s2, v in as_enum(I, st, args[0], "core::result::Result"):
+    for s2, v in as_enum(I, st, args[0], R):
         is_ok = v.variant == "Ok"
         inner = v.fields.get("0")
-        if op == "is_ok":
+        if op in ("as_ref", "as_mut", "as_deref", "copied", "cloned"):
+            out.append((s2, "return", v))
+        elif op == "is_ok":
             out.append((s2, "return", BoolV(is_ok)))
         elif op == "is_err":
             out.append((s2, "return", BoolV(not is_ok)))
+        elif op == "is_ok_and":
+            if is_ok:
+                out += _calls(I, s2, args[1], [inner], depth, lambda s3, val: val)
+            else:
+                out.append((s2, "return", BoolV(False)))
+        elif op == "is_err_and":
+            if not is_ok:
+                out += _calls(I, s2, args[1], [inner], depth, lambda s3, val: val)
+            else:
+                out.append((s2, "return", BoolV(False)))
         elif op == "ok":
             out.append((s2, "return", some(inner) if is_ok else none()))
+        elif op == "err":
+            out.append((s2, "return", none() if is_ok else some(inner)))
         elif op in ("unwrap", "expect"):
             for s3, okk in site(I, s2, info, "unwrap", True if is_ok else False, "Result is Ok"):
+                if okk:
+                    out.append((s3, "return", inner))
+                else:
+                    out.append((s3, "panic", ("unwrap", info["fn"], info["ln"])))
+        elif op in ("unwrap_err", "expect_err"):
+            for s3, okk in site(I, s2, info, "unwrap", True if not is_ok else False, "Result is Err"):
                 if okk:
                     out.append((s3, "return", inner))
                 else:
@@ -277,18 +430,66 @@ def m_result(I, st, info, args, depth):
             if is_ok:
                 out.append((s2, "return", v))
             else:
-                for s3, kind, val in I.call_value(s2, args[1], [inner], depth):
-                    out.append((s3, kind, err(val) if kind == "return" else val))
+                out += _calls(I, s2, args[1], [inner], depth, lambda s3, val: err(val))
         elif op == "map":
             if is_ok:
-                for s3, kind, val in I.call_value(s2, args[1], [inner], depth):
-                    out.append((s3, kind, ok(val) if kind == "return" else val))
+                out += _calls(I, s2, args[1], [inner], depth, lambda s3, val: ok(val))
             else:
                 out.append((s2, "return", v))
+        elif op in ("inspect", "inspect_err"):
+            if is_ok == (op == "inspect"):
+                c = s2.new_cell(inner)
+                out += _calls(I, s2, args[1], [Ptr(c, ())], depth, lambda s3, val: v)
+            else:
+                out.append((s2, "return", v))
+        elif op == "map_or":
+            if is_ok:
+                out += _calls(I, s2, args[2], [inner], depth, lambda s3, val: val)
+            else:
+                out.append((s2, "return", args[1]))
+        elif op == "map_or_else":
+            if is_ok:
+                out += _calls(I, s2, args[2], [inner], depth, lambda s3, val: val)
+            else:
+                out += _calls(I, s2, args[1], [inner], depth, lambda s3, val: val)
+        elif op == "and_then":
+            if is_ok:
+                out += _calls(I, s2, args[1], [inner], depth, lambda s3, val: val)
+            else:
+                out.append((s2, "return", v))
+        elif op == "and":
+            out.append((s2, "return", args[1] if is_ok else v))
+        elif op == "or":
+            out.append((s2, "return", v if is_ok else args[1]))
+        elif op == "or_else":
+            if is_ok:
+                out.append((s2, "return", v))
+            else:
+                out += _calls(I, s2, args[1], [inner], depth, lambda s3, val: val)
         elif op == "unwrap_or_default":
             out.append((s2, "return", inner if is_ok else default_of(info["gargs"][0] if info["gargs"] else "")))
         elif op == "unwrap_or":
             out.append((s2, "return", inner if is_ok else args[1]))
+        elif op == "unwrap_or_else":
+            if is_ok:
+                out.append((s2, "return", inner))
+            else:
+                out += _calls(I, s2, args[1], [inner], depth, lambda s3, val: val)
+        elif op == "flatten":
+            if not is_ok:
+                out.append((s2, "return", v))
+            else:
+                for s3, w in as_enum(I, s2, inner, R):
+                    out.append((s3, "return", w))
+        elif op == "transpose":
+            if not is_ok:
+                out.append((s2, "return", some(v)))
+            else:
+                for s3, w in as_enum(I, s2, inner, "core::option::Option"):
+                    out.append((s3, "return", some(ok(w.fields.get("0"))) if w.variant == "Some" else none()))
+        else:
+            s2.unmodelled.append("Result::" + op)
+            out.append((s2, "return", Top("Result::" + op)))
     return out
 
 
@@ -1237,6 +1438,28 @@ SAFE_OPAQUE = (r"^digest::digest::Digest::(new|new_with_prefix|chain_update)$|^c
                r"^core::default::Default::default$|^ring::rand::SystemRandom::new$|^serde_json::value::Value::to_string$|^time::offset_date_time::OffsetDateTime::to_string$")
 
 
+@model(r"^core::default::Default::default$")
+def m_default(I, st, info, args, depth):
+    """Default of the std types whose default is a fixed value (crate-local impls are interpreted from their MIR)"""
+    if info["def"] in I.facts.bodies:
+        return None
+    m = re.match(r"^<(.*) as core::default::Default>::default$", info["name"])
+    ty = m.group(1) if m else ""
+    if ty.startswith("core::option::Option<"):
+        return ret(st, none())
+    if ty in ("&str", "alloc::string::String", "str") or ty.startswith("&'") and ty.endswith(" str"):
+        return ret(st, StrV(""))
+    if ty == "bool":
+        return ret(st, BoolV(False))
+    if re.match(r"^[ui](8|16|32|64|128|size)$", ty):
+        return ret(st, Aff(0, ty=ty))
+    if ty.startswith("alloc::vec::Vec<"):
+        return ret(st, Seq("vec", Aff(0), elems=[], kind="vec"))
+    if ty.startswith("core::marker::PhantomData<"):
+        return ret(st, UNIT)
+    return None
+
+
 @model(SAFE_UNIT)
 def m_safe_unit(I, st, info, args, depth):
     if info["def"] in I.facts.bodies:
@@ -1356,13 +1579,13 @@ def m_checked(I, st, info, args, depth):
 SAFE_STD = (r"^core::str::<impl str>::(bytes|chars|char_indices|trim|trim_start|trim_end|trim_matches|starts_with|ends_with|contains|find|rfind|eq_ignore_ascii_case|is_char_boundary|"
             r"to_lowercase|to_uppercase|to_ascii_lowercase|to_ascii_uppercase|get|as_ptr|lines|split_once|rsplit_once|strip_prefix|strip_suffix|parse|is_ascii|nth|rsplitn|split_terminator|matches)$|"
             r"^alloc::str::<impl str>::(to_lowercase|to_uppercase|repeat|replace|to_ascii_lowercase|to_ascii_uppercase)$|"
-            r"^core::iter::traits::iterator::Iterator::(zip|map|filter|filter_map|enumerate|rev|skip|take|chain|cloned|copied|peekable|count|nth|last|position|sum|min|max|find|find_map|for_each|flat_map|flatten|take_while|skip_while|eq|cmp|by_ref|size_hint|map_while|inspect|fuse|step_by)$|"
+            r"^core::iter::traits::iterator::Iterator::(zip|map|filter|filter_map|enumerate|rev|skip|take|chain|cloned|copied|peekable|count|nth|last|position|sum|min|max|find|find_map|for_each|try_for_each|try_fold|flat_map|flatten|take_while|skip_while|eq|cmp|by_ref|size_hint|map_while|inspect|fuse|step_by)$|"
             r"^core::iter::traits::double_ended::DoubleEndedIterator::(next_back|rev|rfold|rfind|nth_back)$|"
             r"^core::slice::<impl \[T\]>::(iter_mut|starts_with|ends_with|chunks|chunks_exact|chunks_exact_mut|windows|split_first|split_last|to_owned|concat|is_sorted|binary_search|get_mut|fill|reverse|as_ptr)$|"
             r"^alloc::vec::Vec::<T, A>::(get|first|last|clear|truncate|reserve|capacity|pop|iter|as_ptr|shrink_to_fit|dedup|retain|append|is_empty)$|"
             r"^alloc::string::String::(clear|capacity|from_utf8_lossy|truncate|pop|reserve)$|^core::char::methods::<impl char>::|^core::num::<impl u8>::(is_ascii|to_ascii|eq_ignore)|"
-            r"^core::option::Option::<T>::(and_then|or|or_else|map_or|map_or_else|zip|and|xor|get_or_insert_with|insert|replace|iter|is_some_and|inspect|flatten|ok_or)$|"
-            r"^core::result::Result::<T, E>::(and_then|or|or_else|map_or|map_or_else|and|iter|is_ok_and|is_err_and|inspect|inspect_err|err|as_ref|copied|cloned)$|"
+            r"^core::option::Option::<T>::(iter|iter_mut)$|"
+            r"^core::result::Result::<T, E>::(iter|iter_mut)$|"
             r"^std::collections::hash::map::HashMap::<K, V, S(, A)?>::(get|iter|keys|values|len|is_empty|get_key_value)$|^std::collections::hash::set::HashSet::<T, S(, A)?>::(contains|get|len|is_empty|iter)$|"
             r"^serde_json::value::Value::(get|is_string|is_number|is_boolean|is_array|is_object|as_bool|as_i64|as_u64|as_f64|as_array|as_object|pointer)$|^serde_json::map::Map::<.*>::(iter|keys|values|is_empty)$|"
             r"^core::cmp::(Ord|PartialOrd)::(cmp|partial_cmp|max|min)$|^core::cmp::(min|max)$|^core::mem::(size_of|align_of)")
@@ -1666,3 +1889,7 @@ def _prioritise(names):
 
 
 _prioritise({"m_collect_map", "m_iter_map", "m_iter_lossy", "m_map_iter", "m_slice_get", "m_split_at_checked", "m_any", "m_push_str", "m_string_new", "m_fmt_write", "m_rng_fill"})
+
+
+# concrete collections / lazy iterators (registered in front of the models above; they decline unless the receiver is concrete)
+from . import models_iter  # noqa: E402,F401
